@@ -344,3 +344,22 @@ Definition M_sub_read (gpos : bool) (data : list N) (pos : N) (lookupType : N) :
 
 (* index part of a table handed to the encoder *)
 Definition as_table (t : list (N * N)) : list (N * Z) := map (fun p => (fst p, Z.of_N (snd p))) t.
+
+(* ------------------------------------------------------------------ *)
+(* specification side: type invariants of the Go values                *)
+
+(* every non-zero field has its bit in the format *)
+Definition vr_covers (fmt : N) (v : option vrec) : Prop :=
+  match v with
+  | None => True
+  | Some r =>
+    (v_xp r <> 0%Z -> fbit fmt 0 = true) /\ (v_yp r <> 0%Z -> fbit fmt 1 = true) /\
+    (v_xa r <> 0%Z -> fbit fmt 2 = true) /\ (v_ya r <> 0%Z -> fbit fmt 3 = true) /\
+    (v_xpd r <> 0 -> fbit fmt 4 = true) /\ (v_ypd r <> 0 -> fbit fmt 5 = true) /\
+    (v_xad r <> 0 -> fbit fmt 6 = true) /\ (v_yad r <> 0 -> fbit fmt 7 = true)
+  end.
+
+Definition gids_ok (l : list N) : Prop := Forall (fun x => x < 65536) l.
+
+Definition seq_ok (s : list N) : Prop := gids_ok s /\ lenN s < 65536.
+
